@@ -171,6 +171,19 @@ def gen_chclose(rnd):
                 code=code)
 
 
+def gen_connclose_code(rnd):
+    """C07: the broker closes the CONNECTION with an error code while threads work."""
+    nchan = rnd.choice([1, 2])
+    threads = []
+    for t in range(rnd.choice([1, 2, 3])):
+        c = rnd.randrange(1, nchan + 1)
+        threads.append([(c, rnd.choice([('declare', b'q%d' % t), ('check',), ('ack',),
+                                        ('publish', b'Ap', False)]))
+                        for _ in range(rnd.randrange(1, 4))])
+    code = rnd.choice([320, 501, 541])
+    return dict(nchan=nchan, threads=threads, events=[(rnd.randrange(0, 3), ('connclose', code))])
+
+
 def gen_wire(rnd):
     """C01: publishers (bodies of 0..3 frames), acks and calls on shared and separate channels."""
     nchan = rnd.choice([1, 2, 2])
